@@ -41,7 +41,7 @@ type Op struct {
 	MBF      bool     `json:"mbf,omitempty"`
 	HasNonce bool     `json:"hn,omitempty"`
 	Nonce    uint32   `json:"nonce,omitempty"`
-	Life     int64    `json:"life,omitempty"` // ms; 0 = absent (default 4000)
+	Life     int64    `json:"life,omitempty"` // ms; 0 = absent (default 4000); -1 = present with the value 0
 	Hop      int      `json:"hop,omitempty"`  // -1 absent... stored +1: 0 = absent, h+1 otherwise
 	Hints    []string `json:"hints,omitempty"`
 	Tok      string   `json:"tok,omitempty"` // hex: downstream token (I) / explicit token (D, foreign or bogus)
@@ -357,6 +357,9 @@ func (m *Model) lookupName(op Op) (lookup string, hintKey string) {
 func lifetimeOf(op Op) int64 {
 	if op.Life > 0 {
 		return op.Life * ms
+	}
+	if op.Life < 0 { // the InterestLifetime element is there and says 0 ms (an absent one means the default)
+		return 0
 	}
 	return defaultLifetime
 }
